@@ -278,15 +278,11 @@ func (r *replicator) processHash(ctx context.Context, item processItem) ([]cid.C
 	cprogress := make(chan iface.IPFSLogEntry)
 	defer close(cprogress)
 	go func() {
-		var entry iface.IPFSLogEntry
-		for {
-
-			select {
-			case <-ctx.Done():
-				return
-			case entry = <-cprogress:
-			}
-
+		// keep receiving until the channel is closed (when processHash returns): the
+		// fetcher reports every fetched entry with a blocking send, so a consumer that
+		// leaves on cancellation would leave the fetch, and with it this worker and the
+		// whole load request, blocked forever
+		for entry := range cprogress {
 			if entry == nil {
 				return
 			}
